@@ -17,15 +17,15 @@ TRANSPARENT = [
     (r"core::pin::Pin::<Ptr>::(new_unchecked|new|as_mut|get_mut|get_unchecked_mut|into_inner|map_unchecked_mut|set)$", None),
     (r"core::ops::try_trait::Try::branch$", None),
     (r"core::ops::try_trait::FromResidual::from_residual$", None),
-    (r"core::option::Option::<[^>]*>::(unwrap|expect|as_ref|as_mut|take|cloned|copied|unwrap_or_else|unwrap_or|as_deref|as_deref_mut|unwrap_unchecked|ok_or|ok_or_else|as_pin_mut)$", [0]),
+    (r"core::option::Option::<[^>]*>::(unwrap|expect|as_ref|as_mut|take|cloned|copied|unwrap_or_else|unwrap_or|as_deref|as_deref_mut|unwrap_unchecked|ok_or|ok_or_else|as_pin_mut|map|inspect|filter)$", [0]),
     (r"core::result::Result::<T, E>::(unwrap|expect|as_ref|as_mut|ok|unwrap_or_else|map_err)$", [0]),
-    (r"alloc::sync::Arc::<T>::(new|pin)$", None),
+    (r"alloc::sync::Arc::<T(, A)?>::(new|pin)$", None),
     (r"alloc::boxed::Box::<T>::(new|pin)$", None),
     (r"core::mem::manually_drop::ManuallyDrop::<T>::(new|into_inner|take)$", None),
     (r"core::mem::(take|replace)$", [0]),
     (r"tokio::sync::mutex::Mutex::<T>::(new|into_inner)$", None),
     (r"parking_lot::.*::(new|into_inner)$", None),
-    (r"alloc::sync::Arc::<T>::(try_unwrap|into_inner|downgrade)$", None),
+    (r"alloc::sync::Arc::<T(, A)?>::(try_unwrap|into_inner|downgrade)$", None),
     (r"core::iter::traits::collect::IntoIterator::into_iter$", None),
     (r"core::iter::traits::iterator::Iterator::(next|copied|cloned|by_ref|enumerate)$", [0]),
     (r"core::slice::<impl \[T\]>::(iter|iter_mut|as_ref)$", None),
@@ -504,4 +504,208 @@ def origins_deep(prog, body, op_or_place, depth=0, **kw):
                 out |= sub
                 continue
         out.add(o)
+    return out
+
+
+# ---------------------------------------------------------------- equality tests
+
+class Desc:
+    """What an operand is made of: callee names (last two path segments) of the calls it
+    derives from, field names on its access path, constants, parameters."""
+
+    def __init__(self, body, op, prog=None):
+        self.calls, self.consts, self.params, self.aggs = set(), set(), set(), set()
+        os_ = origins_deep(prog, body, op) if prog is not None else origins_of_operand(body, op)
+        for o in os_:
+            if o.kind == "call":
+                p = o.callee() or ""
+                segs = [x for x in re.sub(r"<[^<>]*>", "", re.sub(r"<[^<>]*>", "", p)).split("::") if x]
+                self.calls.add("::".join(segs[-2:]))
+                self.calls.add(segs[-1] if segs else "")
+            elif o.kind == "const":
+                self.consts.add(str(o.info))
+            elif o.kind == "param":
+                self.params.add(str(o.info))
+            elif o.kind == "agg":
+                rv = o.site.node["rv"]
+                self.aggs.add("%s::%s" % ((rv.get("adt") or rv.get("ak") or "").split("::")[-1], rv.get("vname", "")))
+        self.fields = access_path(body, op) if op_place(op) is not None else []
+
+    def has(self, name):
+        return name in self.calls or name in self.fields or any(name in a for a in self.aggs)
+
+    def __repr__(self):
+        return "Desc(calls=%s fields=%s consts=%s params=%s aggs=%s)" % (sorted(self.calls), self.fields, sorted(self.consts), sorted(self.params), sorted(self.aggs))
+
+
+def equality_edges(body, prog=None):
+    """[(switch_bb, target_bb, 'eq'|'ne', Desc a, Desc b)] for every switch that tests the result of
+    PartialEq::eq/ne or an Eq/Ne BinaryOp."""
+    if hasattr(body, "_eq_edges") and prog is None:
+        return body._eq_edges
+    out = []
+    for sb in switches(body):
+        c = switch_cond(body, sb)
+        a = b = None
+        is_eq = None
+        if c.kind == "call" and re.search(r"core::cmp::PartialEq::(eq|ne)$", c.callee):
+            is_eq = c.callee.endswith("::eq")
+            a, b = c.args[0], c.args[1]
+        elif c.kind == "bin" and c.op in ("Eq", "Ne"):
+            is_eq = c.op == "Eq"
+            a, b = c.a, c.b
+        if is_eq is None:
+            continue
+        if c.negated:
+            is_eq = not is_eq
+        tt, ft = bool_edges(body, sb)
+        if tt is None:
+            continue
+        da, db = Desc(body, a, prog), Desc(body, b, prog)
+        out.append((sb, tt, "eq" if is_eq else "ne", da, db))
+        out.append((sb, ft, "ne" if is_eq else "eq", da, db))
+    if prog is None:
+        body._eq_edges = out
+    return out
+
+
+def dominated_by_equality(body, bb, want, pred, prog=None):
+    """Is block bb reachable only through an edge on which `a (want) b` holds for operands
+    matching pred(Desc a, Desc b) (order-insensitive)?"""
+    for sb, tb, rel, da, db in equality_edges(body, prog):
+        if rel != want:
+            continue
+        if not (pred(da, db) or pred(db, da)):
+            continue
+        if (bb == tb or body.edge_dominates((sb, tb), bb)) and bb in body.reachable([tb]):
+            return True
+    return False
+
+
+def variant_edges(body, adt_suffix):
+    """[(switch_bb, target_bb, variant_index or 'otherwise', Cond)] for switches on the discriminant
+    of an enum whose path ends with adt_suffix."""
+    out = []
+    for sb in switches(body):
+        c = switch_cond(body, sb)
+        if c.kind == "disc" and c.adt and c.adt.endswith(adt_suffix):
+            for v, tb in switch_edges(body, sb):
+                out.append((sb, tb, v, c))
+    return out
+
+
+def dominated_by_variant(body, bb, adt_suffix, variants, place_pred=None):
+    """bb reachable only via an edge selecting one of `variants` (indices) of the enum."""
+    edges = variant_edges(body, adt_suffix)
+    by_switch = {}
+    for sb, tb, v, c in edges:
+        by_switch.setdefault(sb, []).append((tb, v, c))
+    for sb, lst in by_switch.items():
+        if place_pred is not None and not place_pred(lst[0][2]):
+            continue
+        explicit = [v for _, v, _ in lst if v != "otherwise"]
+        good_targets = set()
+        for tb, v, c in lst:
+            if v in variants:
+                good_targets.add(tb)
+            elif v == "otherwise":
+                pass
+        if not good_targets:
+            continue
+        # all paths to bb go through one of the good edges of this switch
+        bad_edges = [(sb, tb) for tb, v, c in lst if tb not in good_targets]
+        good_edges = [(sb, tb) for tb in good_targets]
+        if bb in body.reachable([0], removed_edges=good_edges):
+            continue
+        return True
+    return False
+
+
+# ---------------------------------------------------------------- loops over iterators / option-producing calls
+
+class Loop:
+    def __init__(self, body, head, some, none, src):
+        self.body, self.head, self.some, self.none, self.src = body, head, some, none, src
+
+    def region(self):
+        """Blocks of one iteration: reachable from the Some target without passing the head."""
+        return self.body.reachable([self.some], removed_nodes=[self.head.bb])
+
+    def src_calls(self):
+        return [o.callee() or "" for o in self.src if o.kind == "call"]
+
+    def __repr__(self):
+        return "Loop(head=%r some=bb%s none=bb%s src=%s)" % (self.head, self.some, self.none, self.src)
+
+
+def option_switch_after(body, site):
+    """If the value produced at call `site` is matched as an Option right away, return
+    (switch_bb, some_target, none_target)."""
+    t = site.node
+    dest = t["dest"][0]
+    for sb in switches(body):
+        c = switch_cond(body, sb)
+        if c.kind == "disc" and c.place[0] == dest and c.adt == "core::option::Option" and body.bb_dominates(site.bb, sb):
+            some = none = None
+            for v, tb in switch_edges(body, sb):
+                if v == 1:
+                    some = tb
+                elif v == 0:
+                    none = tb
+            if some is None or none is None:
+                other = [tb for v, tb in switch_edges(body, sb) if v == "otherwise"][0]
+                if some is None:
+                    some = other
+                else:
+                    none = other
+            return sb, some, none
+    return None
+
+
+def iter_loops(body):
+    out = []
+    for s in body.calls_to(r"core::iter::traits::iterator::Iterator::next$"):
+        sw = option_switch_after(body, s)
+        if sw is None:
+            continue
+        sb, some, none = sw
+        # it is a loop only if the head is reachable again from the Some arm
+        if s.bb not in body.reachable([some]):
+            continue
+        src = origins_of_operand(body, s.node["args"][0])
+        out.append(Loop(body, s, some, none, src))
+    return out
+
+
+def await_loops(body, callee_pattern):
+    """`while let Some(x) = <callee>().await` loops: head = the call creating the future."""
+    out = []
+    for s in body.calls_to(callee_pattern):
+        aw = await_of_call(body, s)
+        if aw is None or aw.ready_edge is None:
+            continue
+        # the Ready value is moved into a local that is matched as Option
+        for sb in switches(body):
+            c = switch_cond(body, sb)
+            if c.kind != "disc" or c.adt != "core::option::Option":
+                continue
+            if not body.edge_dominates(aw.ready_edge, sb):
+                continue
+            os_ = origins_of_place(body, c.place)
+            if not any(o.kind == "call" and o.site == s for o in os_):
+                continue
+            some = none = None
+            for v, tb in switch_edges(body, sb):
+                if v == 1:
+                    some = tb
+                elif v == 0:
+                    none = tb
+            other = [tb for v, tb in switch_edges(body, sb) if v == "otherwise"]
+            if some is None and other:
+                some = other[0]
+            if none is None and other:
+                none = other[0]
+            if s.bb in body.reachable([some]):
+                out.append(Loop(body, s, some, none, origins_of_operand(body, s.node["args"][0])))
+            break
     return out
